@@ -326,6 +326,15 @@ def element_names(rng, n, kind=None):
             # only strings of decimal digits (of any script): the dataset becomes integer-typed
             dec = [x for x in pool if x.isdecimal()]
             names = rng.sample(dec, min(n, len(dec)))
+        elif n >= 3 and rng.random() < 0.45:
+            # twins: two DIFFERENT names with the same integer reading ("07" and "7", "\uff11\uff12" and "12") next to a
+            # name that is not integer-like: the dataset holds strings, and whatever re-reads a part of it as integers
+            # (a projection on a component, a comparison by value) merges the twins
+            a, b = rng.choice([("07", "7"), ("007", "7"), ("\uff11\uff12", "12"), ("\u0665", "5"), ("00", "0")])
+            rest = [x for x in pool if x not in (a, b) and not x.isdecimal()]
+            others = rng.sample(["8", "9", "11", "6"], min(max(0, n - 3), 4))
+            names = [a, b, rng.choice(rest + ["w", "a"])] + others
+            names = names[:max(3, n)]
     elif kind == "negint":
         names = rng.sample(range(-8 - n, 12 + n), n)
     elif kind == "hugeint":
@@ -607,6 +616,42 @@ def large_candidate(rng, base, style=None):
             at += g
         return style, out
     return style, [[e] for e in order]
+
+
+def reshape_twins(rng):
+    """(A, B): two different datasets of single-bucket rankings whose position matrices (0 = ranked, -1 = not ranked) have
+    the same flattened content and different shapes (n x m and m x n, or n x m and (n*m/k) x k): anything that identifies a
+    position matrix by its content without its shape confuses them.  Every element is ranked at least once."""
+    for _ in range(50):
+        n, m = rng.choice([(2, 3), (3, 2), (2, 4), (4, 2), (3, 4), (4, 3), (2, 6), (6, 2), (1, 3), (3, 1), (2, 5), (5, 2)])
+        flat = [0 if rng.random() < rng.choice([0.5, 0.7, 1.0]) else -1 for _ in range(n * m)]
+        shapes = [(n, m), (m, n)]
+        ok = True
+        out = []
+        for (rows, cols), base in zip(shapes, (0, 100)):
+            mat = [flat[i * cols:(i + 1) * cols] for i in range(rows)]
+            if any(all(v == -1 for v in row) for row in mat):
+                ok = False
+                break
+            ds = []
+            for j in range(cols):
+                members = [base + i for i in range(rows) if mat[i][j] == 0]
+                ds.append([members] if members else [])
+            # the first appearance of the elements must follow the row order: a first ranking that lists them all, when the
+            # first column does, keeps ids = rows; otherwise ids are assigned by first appearance and the matrix differs
+            seen = []
+            for r in ds:
+                for b in r:
+                    for e in sorted(b):
+                        if e not in seen:
+                            seen.append(e)
+            if seen != sorted(seen):
+                ok = False
+                break
+            out.append(ds)
+        if ok and n != m:
+            return out[0], out[1]
+    return [[[0, 1]]] * 3, [[[100, 101, 102]]] * 2
 
 
 def universe_of(ds):
